@@ -22,13 +22,13 @@ structure GInv (Ref : String → Prop) (st : St) : Prop where
   bne : ∀ gb ∈ st.bGrp, gb.g.name ≠ ""
 
 /-- The group table of the device while the group-member requests are executed. -/
-structure SimG (sh : Shared) (st : St) (vg : Vsys) : Prop where
+structure SimG (sh : Shared) (Ref : String → Prop) (st : St) (vg : Vsys) : Prop where
   U : ∀ ga ∈ st.aGrp, ga.needed = false →
     ∃ ms, lookupGrp vg.groups ga.g.name = some ms ∧ SameMem ms ga.g.members ∧ ms.Nodup
   K : ∀ gb ∈ st.bGrp, ∀ ga ∈ st.aGrp, gb.onDev = ga.g.name →
     ∃ ms, lookupGrp vg.groups ga.g.name = some ms ∧ SameMem ms gb.g.members
   anames : ∀ ga ∈ st.aGrp, ga.g.name ∈ vg.groups.map (·.name)
-  mems : ∀ gb ∈ st.bGrp, ∀ m ∈ gb.g.members, addrRefOk sh vg m = true
+  mems : ∀ gb ∈ st.bGrp, Ref gb.g.name → ∀ m ∈ gb.g.members, addrRefOk sh vg m = true
 
 /-! ### Static parts under `GMono` -/
 
